@@ -1,5 +1,5 @@
 (* C06: wire values always fit their declared width. *)
-From V Require Import Base.Bits Gen.WireOps Model.SimKernel.
+From V Require Import Base.Bits Gen.WireOps Model.SimKernel Model.Trace.
 
 Lemma Wire_put_trunc w v : Wire_put w v = trunc w v.
 Proof. reflexivity. Qed.
@@ -151,6 +151,23 @@ Qed.
 Lemma history_inv st0 ops : Inv (fold_left run_op ops (init d st0)).
 Proof.
   generalize (init_inv st0). generalize (init d st0). intros s; revert s.
+  induction ops as [|o ops IH]; intros s H; cbn [fold_left]; auto. apply IH, run_op_inv, H.
+Qed.
+
+(* construction with constructor-time puts (registers showing their initial value at power-up) *)
+Lemma init_poked_inv st0 pokes : Inv (init_poked d st0 pokes).
+Proof.
+  unfold init_poked. set (z := {| vals := map (fun _ => 0) (widths d); pend := []; sts := st0; total := O |}).
+  assert (Hz : Inv z) by (split; cbn; [apply zeros_ranged | constructor]).
+  assert (Hf : Inv (fold_left (fun s p => poke d s (fst p) (snd p)) pokes z)).
+  { clear -Hz widths_nonneg. revert Hz. generalize z. induction pokes as [|p ps IH]; intros s Hs; cbn [fold_left]; auto.
+    apply IH, poke_inv, Hs. }
+  destruct Hf as [Hv _]. split; cbn; [apply propagateAll_ranged, Hv | constructor].
+Qed.
+
+Lemma history_poked_inv st0 pokes ops : Inv (fold_left run_op ops (init_poked d st0 pokes)).
+Proof.
+  generalize (init_poked_inv st0 pokes). generalize (init_poked d st0 pokes). intros s; revert s.
   induction ops as [|o ops IH]; intros s H; cbn [fold_left]; auto. apply IH, run_op_inv, H.
 Qed.
 
